@@ -34,6 +34,16 @@ Definition spec (c : case) : bool := c_done c && spec_in (c_in c) (c_obs c).
     evidence; not part of the verdict.) *)
 Definition repaired_ok (c : case) : bool := spec_in (c_in c) (run_model_inc (c_in c)).
 
+(** Correspondence with the REPAIRED loop model (to be used as [corr] once the
+    incremental-decoder fix is in the tree). *)
+Definition obs_text_eqb (a b : run_obs) : bool :=
+  text_eqb (ro_stdout a) (ro_stdout b) && text_eqb (ro_stderr a) (ro_stderr b) &&
+  text_eqb (ro_out_stream a) (ro_out_stream b) && text_eqb (ro_err_stream a) (ro_err_stream b).
+(* texts only: CPython's incremental decoder holds back a truncated ED A0..BF pair
+   (surrogatepass support), so its per-read pieces differ from [drun]'s in that one
+   case while the totals agree *)
+Definition corr_inc (c : case) : bool := c_done c && obs_text_eqb (run_model_inc (c_in c)) (c_obs c).
+
 (** Decoder validation: model and reference against CPython. *)
 Record dcase := mkd { d_enc : enc; d_bytes : bytes; d_text : text }.
 Definition dcorr (c : dcase) : bool := text_eqb (decode_all (d_enc c) (d_bytes c)) (d_text c).
